@@ -50,21 +50,27 @@ def qr_shortcut_rule(chk, src):
     """the `skip the QR` shortcut of _decompose_qr sets q = gamma, r = [[1]], p = [0]: shapes agree with q (R x K), r (K x C), p (C) only if gamma has one column"""
     from ..syminterp import SymInterp, Sym
     fi = src.func(SYM, "_decompose_qr")
-    ifs = [n for n in ast.walk(fi.node) if isinstance(n, ast.If) and "gamma" in unparse(n.test) and any("linalg.qr" in unparse(x) for x in n.body + n.orelse)]
+    ifs = [n for n in ast.walk(fi.node) if isinstance(n, ast.If) and ".shape" in unparse(n.test) and any("linalg.qr" in unparse(x) for x in n.body + n.orelse)]
     if len(ifs) != 1:
         raise AnalysisError(f"{fi.where}: QR / shortcut branch not found")
     node = ifs[0]
     qr_in_body = any("linalg.qr" in unparse(x) for x in node.body)
     short = node.orelse if qr_in_body else node.body
+    # the matrix being factorised = first argument of the QR call; the three results = the names the QR call is unpacked into
+    qrcall = [x for st in (node.body if qr_in_body else node.orelse) for x in ast.walk(st) if isinstance(x, ast.Assign) and "linalg.qr" in unparse(x.value)]
+    if len(qrcall) != 1 or not isinstance(qrcall[0].targets[0], ast.Tuple) or len(qrcall[0].targets[0].elts) != 3:
+        raise AnalysisError(f"{fi.where}: `q, r, p = scipy.linalg.qr(gamma, ...)` not found")
+    GAMMA = unparse(qrcall[0].value.args[0])
+    NQ, NR, NP = (unparse(x) for x in qrcall[0].targets[0].elts)
     asg = {unparse(s_.targets[0]): unparse(s_.value).replace(" ", "") for s_ in short if isinstance(s_, ast.Assign)}
-    shape_ok = asg.get("q") == "gamma" and asg.get("r") in ("np.array([1]).reshape(1,1)", "np.ones((1,1))") and asg.get("p") == "np.array([0])"
+    shape_ok = asg.get(NQ) == GAMMA and asg.get(NR) in ("np.array([1]).reshape(1,1)", "np.ones((1,1))") and asg.get(NP) == "np.array([0])"
     chk.ob("qr-shortcut-shape", "shortcut branch is q = gamma, r = [[1]], p = [0]", shape_ok, fi.where, asg, {"q": "gamma", "r": "1 x 1", "p": "[0]"}, line=node.lineno,
            detail="the shortcut's shapes were re-derived for q = gamma (K = number of columns), r of shape (1, 1), p of length 1")
     it = SymInterp(src, None, {})
     bad = []
     for r_ in (1, 2, 3, 7):
         for c_ in (1, 2, 3, 7):
-            t = bool(it.ev(node.test, {"gamma": Sym("gamma", shape=(r_, c_), ndim=2)}))
+            t = bool(it.ev(node.test, {GAMMA: Sym("gamma", shape=(r_, c_), ndim=2)}))
             takes_short = (not t) if qr_in_body else t
             if takes_short and c_ != 1:
                 bad.append(f"gamma of shape ({r_}, {c_}) takes the shortcut")
@@ -304,10 +310,14 @@ def run(chk):
     for rel, qual, ranks in ((MPO, "Mpo.todense", (4, 4)), (MPS, "Mps.todense", (3, 3))):
         fi = src.func(rel, qual)
         loop = [n for n in ast.walk(fi.node) if isinstance(n, ast.For)]
-        asg = [s_ for l in loop for s_ in l.body if isinstance(s_, ast.Assign) and unparse(s_.targets[0]) == "res"]
+        # the accumulation statement: <acc> = tensordot(<acc>, <site>...)... inside the loop over the sites (names are free)
+        asg = [s_ for l in loop for s_ in l.body if isinstance(s_, ast.Assign) and isinstance(s_.targets[0], ast.Name) and "tensordot" in unparse(s_.value)
+               and any(isinstance(x, ast.Name) and x.id == s_.targets[0].id for x in ast.walk(s_.value))]
         if len(asg) != 1:
             raise AnalysisError(f"{fi.where}: accumulation statement not found")
-        tr = Tracker({"res": [("res", k) for k in range(ranks[0])], "mt": [("mt", k) for k in range(ranks[1])]})
+        acc = asg[0].targets[0].id
+        site = [unparse(l.target) for l in loop if asg[0] in l.body][0]
+        tr = Tracker({acc: [("res", k) for k in range(ranks[0])], site: [("mt", k) for k in range(ranks[1])]})
         e = asg[0].value
         # the reshape uses locals dim1.. : strip it and look at the leg order before the reshape
         inner = e.func.value if isinstance(e, ast.Call) and isinstance(e.func, ast.Attribute) and e.func.attr == "reshape" else e
